@@ -110,6 +110,9 @@ pub fn parallel_parse(
     let collector_thread = thread::spawn(move || {
         let mut crate_parsed_data: BTreeMap<CrateName, ParsedData> = BTreeMap::new();
 
+        #[cfg(feature = "verif-hooks")]
+        let rx = verif_hooks::reorder(rx);
+
         for result in rx {
             let parsed_data = result?;
             let crate_name = parsed_data.crate_name.clone();
@@ -144,4 +147,63 @@ pub fn parallel_parse(
 
     drop(tx);
     collector_thread.join().unwrap()
+}
+
+/// Verification hook: lets a test harness choose the order in which per-file results reach the
+/// collector. Inert unless `TYPESHARE_VERIF_ORDER` is set.
+#[cfg(feature = "verif-hooks")]
+mod verif_hooks {
+    use crossbeam::channel::Receiver;
+    use typeshare_core::parser::ParsedData;
+
+    fn key(r: &anyhow::Result<ParsedData>) -> String {
+        match r {
+            Ok(d) => format!(
+                "0 {} {:?} {:?} {:?} {:?} {}",
+                d.crate_name,
+                d.structs.iter().map(|s| &s.id.original).collect::<Vec<_>>(),
+                d.enums
+                    .iter()
+                    .map(|e| &e.shared().id.original)
+                    .collect::<Vec<_>>(),
+                d.aliases.iter().map(|a| &a.id.original).collect::<Vec<_>>(),
+                d.consts.iter().map(|c| &c.id.original).collect::<Vec<_>>(),
+                d.errors.len()
+            ),
+            Err(e) => format!("1 {e:#}"),
+        }
+    }
+
+    /// With `TYPESHARE_VERIF_ORDER` unset this is a pass-through. Otherwise all results are drained,
+    /// put into a canonical order and then permuted: `rev`, or comma separated indices into the
+    /// canonical order (missing indices follow in canonical order).
+    pub fn reorder(
+        rx: Receiver<anyhow::Result<ParsedData>>,
+    ) -> Box<dyn Iterator<Item = anyhow::Result<ParsedData>>> {
+        let Ok(spec) = std::env::var("TYPESHARE_VERIF_ORDER") else {
+            return Box::new(rx.into_iter());
+        };
+        let mut all: Vec<Option<anyhow::Result<ParsedData>>> = {
+            let mut v: Vec<anyhow::Result<ParsedData>> = rx.into_iter().collect();
+            v.sort_by_key(key);
+            v.into_iter().map(Some).collect()
+        };
+        let mut out = Vec::with_capacity(all.len());
+        if spec.trim() == "rev" {
+            all.reverse();
+        } else {
+            for idx in spec
+                .split(',')
+                .filter_map(|s| s.trim().parse::<usize>().ok())
+            {
+                if let Some(slot) = all.get_mut(idx) {
+                    if let Some(r) = slot.take() {
+                        out.push(r);
+                    }
+                }
+            }
+        }
+        out.extend(all.into_iter().flatten());
+        Box::new(out.into_iter())
+    }
 }
